@@ -248,4 +248,27 @@ theorem seegerBeste_root_iff_partial (h : m.Adm) (hKp : 1 < m.Kp) {s L : ℝ} (h
   · unfold sbStressImplicit
     rw [lit1, sub_eq_zero, div_eq_one_iff_eq hMN.ne']
 
+/-! ## zero load -/
+
+/-- **Zero load ↦ zero stress (and back)**: `σ = 0` solves the extended-Neuber equations for `L = 0` (primary and secondary,
+with the `np.divide` fall-back factor 1 as coded), and the Seeger-Beste equation in product form
+`ε(σ) = middle term · Neuber term` holds at `(0, 0)` - while its quotient form, which the code hands to the solver, is `0/0`
+there.  This is the behaviour the laws have for a zero load / stress (alone or as an element of a vector). -/
+theorem zero_load (m : Mat ℝ) :
+    stressImplicit m 0 0 = 0 ∧ stressSecImplicit m 0 0 = 0 ∧
+    roStrain m 0 = middleTerm m 0 0 * neuberStrain m 0 0 ∧
+    roDeltaStrain m 0 = middleTerm m 0 0 * neuberStrainSec m 0 0 ∧
+    middleTerm m 0 0 * neuberStrain m 0 0 = 0 := by
+  have h0 : eStar m 0 = 0 := by rw [eStar_eq, zero_div, roStrain_zero]
+  have hN : neuberStrain m 0 0 = 0 := by unfold neuberStrain; rw [h0, mul_zero]
+  have hd : roDeltaStrain m 0 = 0 := by unfold roDeltaStrain; rw [zero_div, roStrain_zero, mul_zero]
+  have hN2 : neuberStrainSec m 0 0 = 0 := by
+    unfold neuberStrainSec deltaEStar; rw [zero_div, hd, mul_zero]
+  refine ⟨?_, ?_, ?_, ?_, ?_⟩
+  · unfold stressImplicit; rw [roStrain_zero, hN, sub_zero]
+  · unfold stressSecImplicit; rw [hd, hN2, sub_zero]
+  · rw [roStrain_zero, hN, mul_zero]
+  · rw [hd, hN2, mul_zero]
+  · rw [hN, mul_zero]
+
 end PylifeVerif.C06
